@@ -772,6 +772,13 @@ def case_laws_seq(case, trace):
                     et = real_et(js_q(op[1]), 0)
                     if any((truthy(r[1]) or truthy(r[2])) and not eligible_py(et, *r) for r in res["pre_rows"]):
                         bad.append((law, n))
+        if law == "not_before_last_notification":
+            for n, (op, mops, res) in enumerate(trace):
+                if op[0] == "change" and res["status"] == 0 and res["pick"] is not None:
+                    et = real_et(js_q(op[1]), js_q(op[2]))
+                    r = res["pre_rows"][res["pre_order"].index(res["pick"])]
+                    if F(r[0]) >= 0 and any(truthy(v) and F(v) > et for v in r[1:]):
+                        bad.append((law, n))
         if law == "change_times_strictly_increase":
             marks = []
             for n, (op, mops, res) in enumerate(trace):
@@ -799,7 +806,7 @@ def run(ctx):
         model = fw.ModelProc("sched")
         quick = ctx.quick
         NT = 5000 if quick else 100000
-        NS = 1500 if quick else 25000
+        NS = 1200 if quick else 25000
         n, _ = check_fl53(ctx, model, ctx.sub_rng("fl53"), 2000 if quick else 20000)
         stats["fl53_checked"] = n
         # ---- corpus first
